@@ -1,3 +1,477 @@
 // harnesses mounted as child module of agdb/src/storage/file_storage.rs
+//
+// C01: log recovery restores the last committed storage content at every crash
+// point. The real `FileStorage` and `WriteAheadLog` run over the model file
+// system `crate::verif_fs`; the crash point is the symbolic `crash_at` (ordinal
+// of the mutating file call before which the process dies), optionally with a
+// torn prefix of that very call applied.
+//
+// The property is established by obligations that are each small enough for
+// the solver; DESIGN.md §4 C01 gives the (paper) induction that composes them:
+//   A  every storage call appends its complete undo record to the log before
+//      it touches the data file; a crash inside the append leaves a prefix of
+//      the record; applying the record to the data file as it is at ANY later
+//      crash point of that call (before, torn, after the data write) gives
+//      back the data file as it was before the call   (c01_write_*, c01_resize_*)
+//   B  opening the log discards exactly a torn tail   (c01_repair_* in write_ahead_log_h.rs)
+//   C  replay applies the records newest-first and clears the log,
+//      `FileStorage::new` does so on open and reports the restored length,
+//      Drop does so with an unfinished transaction   (c01_replay_*, c01_open_*, c01_drop_*)
+//   D  flush (outermost commit) empties the log       (c01_flush_*)
+//   E  end-to-end cross-checks with the real open path (thorough tier)
 #[allow(unused_imports)]
 use super::*;
+use crate::verif_fs;
+use crate::verif_support::ok;
+
+const INIT_MAX: usize = 4;
+
+/// Symbolic committed content: 0..=INIT_MAX symbolic bytes in the data file,
+/// empty log. Returns (bytes padded with zeros to 8, len).
+fn c01_init() -> ([u8; 8], usize) {
+    let init: [u8; INIT_MAX] = kani::any();
+    let n0: usize = kani::any();
+    kani::assume(n0 <= INIT_MAX);
+    verif_fs::reset(&init[..n0]);
+    let mut d = [0u8; 8];
+    if n0 > 0 {
+        d[0] = init[0];
+    }
+    if n0 > 1 {
+        d[1] = init[1];
+    }
+    if n0 > 2 {
+        d[2] = init[2];
+    }
+    if n0 > 3 {
+        d[3] = init[3];
+    }
+    (d, n0)
+}
+
+fn c01_arm_crash() {
+    let at: u32 = kani::any();
+    let torn: usize = kani::any();
+    kani::assume(torn <= 8);
+    verif_fs::arm_crash(at, torn);
+}
+
+/// live data file == (d, n): same length, same bytes below the length
+fn c01_data_is(d: &[u8; 8], n: usize) -> bool {
+    verif_fs::data_len() == n
+        && (n <= 0 || verif_fs::data_byte(0) == d[0])
+        && (n <= 1 || verif_fs::data_byte(1) == d[1])
+        && (n <= 2 || verif_fs::data_byte(2) == d[2])
+        && (n <= 3 || verif_fs::data_byte(3) == d[3])
+        && (n <= 4 || verif_fs::data_byte(4) == d[4])
+        && (n <= 5 || verif_fs::data_byte(5) == d[5])
+        && (n <= 6 || verif_fs::data_byte(6) == d[6])
+        && (n <= 7 || verif_fs::data_byte(7) == d[7])
+}
+
+fn c01_snap_data_is(d: &[u8; 8], n: usize) -> bool {
+    verif_fs::snap_data_len() == n
+        && (n <= 0 || verif_fs::snap_data_byte(0) == d[0])
+        && (n <= 1 || verif_fs::snap_data_byte(1) == d[1])
+        && (n <= 2 || verif_fs::snap_data_byte(2) == d[2])
+        && (n <= 3 || verif_fs::snap_data_byte(3) == d[3])
+        && (n <= 4 || verif_fs::snap_data_byte(4) == d[4])
+        && (n <= 5 || verif_fs::snap_data_byte(5) == d[5])
+        && (n <= 6 || verif_fs::snap_data_byte(6) == d[6])
+        && (n <= 7 || verif_fs::snap_data_byte(7) == d[7])
+}
+
+fn c01_current_data() -> ([u8; 8], usize) {
+    let mut c = [0u8; 8];
+    c[0] = verif_fs::data_byte(0);
+    c[1] = verif_fs::data_byte(1);
+    c[2] = verif_fs::data_byte(2);
+    c[3] = verif_fs::data_byte(3);
+    c[4] = verif_fs::data_byte(4);
+    c[5] = verif_fs::data_byte(5);
+    c[6] = verif_fs::data_byte(6);
+    c[7] = verif_fs::data_byte(7);
+    (c, verif_fs::data_len())
+}
+
+/// the snapshot log is a prefix of the live log (first 24 bytes compared)
+fn c01_snap_log_is_prefix_of_live() -> bool {
+    let sl = verif_fs::snap_log_len();
+    if sl > verif_fs::log_len() {
+        return false;
+    }
+    let mut okk = true;
+    macro_rules! cmp {
+        ($($i:literal),*) => { $( if $i < sl && verif_fs::snap_log_byte($i) != verif_fs::log_byte($i) { okk = false; } )* };
+    }
+    cmp!(0, 1, 2, 3, 4, 5, 6, 7, 8, 9, 10, 11, 12, 13, 14, 15, 16, 17, 18, 19, 20, 21, 22, 23);
+    okk
+}
+
+/// Reads the record at offset 0 of the live log with the documented format
+/// (position u64 LE, length u64 LE, bytes) into a real `WriteAheadLogRecord`.
+fn c01_parse_first_record() -> WriteAheadLogRecord {
+    let pos = verif_fs::log_u64(0);
+    let size = verif_fs::log_u64(8);
+    assert!(size <= 8, "C01: undo record longer than anything the call could have overwritten");
+    assert!(verif_fs::log_len() as u64 == 16 + size, "C01: log does not hold exactly one complete record");
+    let mut value: Vec<u8> = Vec::with_capacity(8);
+    let n = size as usize;
+    unsafe {
+        let p = value.as_mut_ptr();
+        if 0 < n {
+            p.add(0).write(verif_fs::log_byte(16));
+        }
+        if 1 < n {
+            p.add(1).write(verif_fs::log_byte(17));
+        }
+        if 2 < n {
+            p.add(2).write(verif_fs::log_byte(18));
+        }
+        if 3 < n {
+            p.add(3).write(verif_fs::log_byte(19));
+        }
+        if 4 < n {
+            p.add(4).write(verif_fs::log_byte(20));
+        }
+        if 5 < n {
+            p.add(5).write(verif_fs::log_byte(21));
+        }
+        if 6 < n {
+            p.add(6).write(verif_fs::log_byte(22));
+        }
+        if 7 < n {
+            p.add(7).write(verif_fs::log_byte(23));
+        }
+        value.set_len(n);
+    }
+    WriteAheadLogRecord { pos, value }
+}
+
+fn c01_open_data_file() -> File {
+    match File::open("db") {
+        Ok(f) => f,
+        Err(e) => {
+            std::mem::forget(e);
+            panic!("model open failed")
+        }
+    }
+}
+
+/// Obligation A, shared tail: called after ONE storage call completed on a
+/// storage whose log was empty, with a crash point armed before the call.
+fn c01_check_undo_record(d0: &[u8; 8], n0: usize) {
+    if verif_fs::first_data_mutation_step() == u32::MAX {
+        // the call did not touch the data file at all (e.g. an empty write):
+        // then it must not have changed it, and whatever it logged is harmless
+        assert!(c01_data_is(d0, n0), "C01: data file changed without a data-file call");
+        if verif_fs::log_len() > 0 {
+            let rec = c01_parse_first_record();
+            let mut f = c01_open_data_file();
+            ok(FileStorage::apply_wal_record(&mut f, rec));
+            assert!(
+                c01_data_is(d0, n0),
+                "C01: the call changed nothing but logged a record that changes the file on recovery"
+            );
+        }
+        return;
+    }
+    // A1: the undo record is complete before the data file is touched, and the
+    //     log is not written again afterwards
+    assert!(
+        verif_fs::log_mutations_at_first_data_mutation() == verif_fs::log_mutations(),
+        "C01: data file modified before the undo record was completely appended"
+    );
+    verif_fs::crash_now_if_not_crashed();
+    let in_log = verif_fs::snap_step() < verif_fs::first_data_mutation_step();
+    // A2: a crash leaves a prefix of the log as it would have been
+    assert!(
+        c01_snap_log_is_prefix_of_live(),
+        "C01: crash state of the log is not a prefix of the appended record"
+    );
+    if in_log {
+        // crash inside the log append: data file untouched
+        assert!(
+            c01_snap_data_is(d0, n0),
+            "C01: data file changed although the crash was inside the log append"
+        );
+        kani::cover!(
+            verif_fs::snap_log_len() > 0 && verif_fs::snap_log_len() < verif_fs::log_len(),
+            "crash left a partial record"
+        );
+    } else {
+        assert!(
+            verif_fs::snap_log_len() == verif_fs::log_len(),
+            "C01: undo record incomplete at a crash point after the data file was touched"
+        );
+        // A3: applying the record (real apply_wal_record) to the data file as the
+        //     crash left it gives back the content from before the call
+        let rec = c01_parse_first_record();
+        verif_fs::restore_snapshot();
+        let mut f = c01_open_data_file();
+        ok(FileStorage::apply_wal_record(&mut f, rec));
+        assert!(
+            c01_data_is(d0, n0),
+            "C01: applying the undo record does not restore the content from before the call"
+        );
+    }
+}
+
+//@ id=C01 tier=quick timeout=900 bounds="committed content 0..=4 symbolic bytes; one write of 0..=3 symbolic bytes at pos<=len not straddling the end; crash before every mutating file call (torn prefix <= 8 bytes of it) or after the call" desc="write(): undo record appended completely before the data file is touched; a crash leaves a prefix of it; applying it (real apply_wal_record) at any later crash point restores content and length" kernel="FileStorage::write,FileStorage::apply_wal_record,WriteAheadLog::insert,FileStorage::new"
+#[kani::proof]
+#[kani::stub(std::fmt::format, crate::verif_support::fmt_stub)]
+#[kani::stub(crate::DbError::new, crate::verif_support::dberror_new_stub)]
+#[kani::stub(<crate::DbError as std::convert::From<std::io::Error>>::from, crate::verif_support::ioerr_stub)]
+#[kani::stub(crate::storage::write_ahead_log::WriteAheadLog::wal_filename, crate::verif_support::wal_name_stub)]
+#[kani::stub(std::vec::from_elem, crate::verif_support::from_elem_stub8)]
+#[kani::unwind(2)]
+fn c01_write_undo_record_inverts_at_every_crash_point() {
+    let (d0, n0) = c01_init();
+    let mut st = ok(FileStorage::new("db"));
+    c01_arm_crash();
+    let pos: u64 = kani::any();
+    let n: usize = kani::any();
+    let bytes: [u8; 3] = kani::any();
+    kani::assume(n <= 3);
+    let len = st.len();
+    assert!(len == n0 as u64, "C01: FileStorage::len() differs from the file length after open");
+    kani::assume(pos <= len);
+    kani::assume(pos == len || pos + n as u64 <= len);
+    ok(st.write(pos, &bytes[..n]));
+    let want_len = std::cmp::max(len, pos + n as u64);
+    assert!(st.len() == want_len, "C01: FileStorage::len() wrong after write");
+    assert!(verif_fs::data_len() as u64 == want_len, "C01: data file length wrong after write");
+    std::mem::forget(st);
+    let inside = pos + (n as u64) <= len && n > 0;
+    let append = pos == len && n > 0;
+    let empty_mid = n == 0 && pos < len;
+    c01_check_undo_record(&d0, n0);
+    kani::cover!(inside, "write inside the file");
+    kani::cover!(append, "append at the end");
+    kani::cover!(empty_mid, "zero-length write in the middle");
+    kani::cover!(true, "end of harness reachable");
+}
+
+//@ id=C01 tier=quick timeout=900 bounds="committed content 0..=4 symbolic bytes; one resize to any length <= len+3; crash before every mutating file call (torn prefix <= 8) or after the call" desc="resize(): undo record appended completely before the data file is truncated/extended; applying it (real apply_wal_record) at any later crash point restores content and length" kernel="FileStorage::resize,FileStorage::apply_wal_record,WriteAheadLog::insert"
+#[kani::proof]
+#[kani::stub(std::fmt::format, crate::verif_support::fmt_stub)]
+#[kani::stub(crate::DbError::new, crate::verif_support::dberror_new_stub)]
+#[kani::stub(<crate::DbError as std::convert::From<std::io::Error>>::from, crate::verif_support::ioerr_stub)]
+#[kani::stub(crate::storage::write_ahead_log::WriteAheadLog::wal_filename, crate::verif_support::wal_name_stub)]
+#[kani::stub(std::vec::from_elem, crate::verif_support::from_elem_stub8)]
+#[kani::unwind(2)]
+fn c01_resize_undo_record_inverts_at_every_crash_point() {
+    let (d0, n0) = c01_init();
+    let mut st = ok(FileStorage::new("db"));
+    c01_arm_crash();
+    let new_len: u64 = kani::any();
+    kani::assume(new_len <= st.len() + 3);
+    ok(st.resize(new_len));
+    assert!(st.len() == new_len, "C01: FileStorage::len() wrong after resize");
+    assert!(verif_fs::data_len() as u64 == new_len, "C01: data file length wrong after resize");
+    // growth zero-fills (StorageData contract)
+    assert!(
+        new_len as usize <= n0 || verif_fs::data_byte(n0) == 0,
+        "C01: resize growth not zero-filled"
+    );
+    std::mem::forget(st);
+    let grow = new_len > n0 as u64;
+    let shrink = new_len < n0 as u64;
+    c01_check_undo_record(&d0, n0);
+    kani::cover!(grow, "grow");
+    kani::cover!(shrink, "shrink");
+    kani::cover!(!grow && !shrink, "same length");
+    kani::cover!(true, "end of harness reachable");
+}
+
+// ---------------------------------------------------------------------------
+// Obligation C: replay order, open, drop. Records are appended with the real
+// `WriteAheadLog::insert`; value lengths are concrete per scenario (keeps the
+// heap objects concrete), positions and bytes are symbolic.
+// ---------------------------------------------------------------------------
+
+/// Reference semantics of one undo record on (d, n): empty value = truncate /
+/// extend (zero-filled) to `pos`, otherwise overwrite at `pos` (extending,
+/// zero-filled gap). Bytes of `d` at or beyond `n` are meaningless.
+fn c01_ref_apply(d: &mut [u8; 8], n: &mut usize, pos: usize, v: &[u8; 2], vlen: usize) {
+    macro_rules! zero_gap {
+        ($($i:literal),*) => { $( if $i >= *n && $i < pos { d[$i] = 0; } )* };
+    }
+    zero_gap!(0, 1, 2, 3, 4, 5, 6, 7);
+    if vlen == 0 {
+        *n = pos;
+    } else {
+        d[pos] = v[0];
+        if vlen > 1 {
+            d[pos + 1] = v[1];
+        }
+        if pos + vlen > *n {
+            *n = pos + vlen;
+        }
+    }
+}
+
+fn c01_replay_two(l1: usize, l2: usize, mode: u8) {
+    let (d0, n0) = c01_init();
+    let p1: u64 = kani::any();
+    let p2: u64 = kani::any();
+    let v1: [u8; 2] = kani::any();
+    let v2: [u8; 2] = kani::any();
+    // stay inside the model: positions at most one past the data that can exist
+    kani::assume(p1 <= 5 && p2 <= 5);
+    {
+        let mut wal = ok(crate::storage::write_ahead_log::WriteAheadLog::new("db"));
+        ok(wal.insert(p1, &v1[..l1])); // older record
+        ok(wal.insert(p2, &v2[..l2])); // newer record
+        std::mem::forget(wal);
+    }
+    // expected: newest first
+    let mut e = d0;
+    let mut en = n0;
+    c01_ref_apply(&mut e, &mut en, p2 as usize, &v2, l2);
+    c01_ref_apply(&mut e, &mut en, p1 as usize, &v1, l1);
+    if mode == 1 {
+        let st = ok(FileStorage::new("db"));
+        assert!(
+            st.len() == en as u64,
+            "C01: FileStorage::len() after open differs from the recovered file length"
+        );
+        std::mem::forget(st);
+    } else if mode == 2 {
+        // a storage with an unfinished transaction (its log holds the two
+        // records) goes out of scope
+        let st = FileStorage {
+            file: c01_open_data_file(),
+            filename: String::new(),
+            len: n0 as u64,
+            lock: Mutex::new(()),
+            wal: ok(crate::storage::write_ahead_log::WriteAheadLog::new("db")),
+        };
+        drop(st);
+    } else {
+        let mut f = c01_open_data_file();
+        let mut wal = ok(crate::storage::write_ahead_log::WriteAheadLog::new("db"));
+        ok(FileStorage::apply_wal(&mut f, &mut wal));
+        std::mem::forget(wal);
+    }
+    assert!(c01_data_is(&e, en), "C01: replay does not apply the undo records newest-first");
+    assert!(verif_fs::log_len() == 0, "C01: log not cleared after replay");
+    kani::cover!(p1 == p2 && v1[0] != v2[0], "same position logged twice");
+    kani::cover!(true, "end of harness reachable");
+}
+
+//@ id=C01 tier=quick timeout=900 bounds="data 0..=4 symbolic bytes; log of TWO records appended by the real insert: value lengths (1,1), symbolic positions <= 5 and bytes" desc="apply_wal replays undo records newest-first (a region logged twice ends with the OLDEST bytes) and clears the log" kernel="FileStorage::apply_wal,FileStorage::apply_wal_record,WriteAheadLog::records,WriteAheadLog::read_record,WriteAheadLog::insert,WriteAheadLog::clear"
+#[kani::proof]
+#[kani::stub(std::fmt::format, crate::verif_support::fmt_stub)]
+#[kani::stub(crate::DbError::new, crate::verif_support::dberror_new_stub)]
+#[kani::stub(<crate::DbError as std::convert::From<std::io::Error>>::from, crate::verif_support::ioerr_stub)]
+#[kani::stub(crate::storage::write_ahead_log::WriteAheadLog::wal_filename, crate::verif_support::wal_name_stub)]
+#[kani::stub(std::vec::from_elem, crate::verif_support::from_elem_stub8)]
+#[kani::unwind(4)]
+fn c01_replay_newest_first_write_write() {
+    c01_replay_two(1, 1, 0);
+}
+
+//@ id=C01 tier=quick timeout=900 bounds="data 0..=4 symbolic bytes; log of TWO records: older = truncate-to-position (empty value), newer = 2 bytes; symbolic positions <= 5" desc="apply_wal newest-first: a write into a region appended earlier in the same transaction does not grow the file back" kernel="FileStorage::apply_wal,FileStorage::apply_wal_record,WriteAheadLog::records"
+#[kani::proof]
+#[kani::stub(std::fmt::format, crate::verif_support::fmt_stub)]
+#[kani::stub(crate::DbError::new, crate::verif_support::dberror_new_stub)]
+#[kani::stub(<crate::DbError as std::convert::From<std::io::Error>>::from, crate::verif_support::ioerr_stub)]
+#[kani::stub(crate::storage::write_ahead_log::WriteAheadLog::wal_filename, crate::verif_support::wal_name_stub)]
+#[kani::stub(std::vec::from_elem, crate::verif_support::from_elem_stub8)]
+#[kani::unwind(4)]
+fn c01_replay_newest_first_truncate_then_write() {
+    c01_replay_two(0, 2, 0);
+}
+
+//@ id=C01 tier=quick timeout=900 bounds="data 0..=4 symbolic bytes; log of TWO records: older = 2 bytes, newer = truncate-to-position; symbolic positions <= 5" desc="apply_wal newest-first with a truncate record as the newest one" kernel="FileStorage::apply_wal,FileStorage::apply_wal_record,WriteAheadLog::records"
+#[kani::proof]
+#[kani::stub(std::fmt::format, crate::verif_support::fmt_stub)]
+#[kani::stub(crate::DbError::new, crate::verif_support::dberror_new_stub)]
+#[kani::stub(<crate::DbError as std::convert::From<std::io::Error>>::from, crate::verif_support::ioerr_stub)]
+#[kani::stub(crate::storage::write_ahead_log::WriteAheadLog::wal_filename, crate::verif_support::wal_name_stub)]
+#[kani::stub(std::vec::from_elem, crate::verif_support::from_elem_stub8)]
+#[kani::unwind(4)]
+fn c01_replay_newest_first_write_then_truncate() {
+    c01_replay_two(2, 0, 0);
+}
+
+//@ id=C01 tier=quick timeout=900 bounds="data 0..=4 symbolic bytes; log of TWO records (1 byte, 2 bytes), symbolic positions <= 5" desc="FileStorage::new replays the log on open (newest-first), clears it and reports the recovered length" kernel="FileStorage::new,FileStorage::apply_wal,WriteAheadLog::new,WriteAheadLog::repair,WriteAheadLog::records"
+#[kani::proof]
+#[kani::stub(std::fmt::format, crate::verif_support::fmt_stub)]
+#[kani::stub(crate::DbError::new, crate::verif_support::dberror_new_stub)]
+#[kani::stub(<crate::DbError as std::convert::From<std::io::Error>>::from, crate::verif_support::ioerr_stub)]
+#[kani::stub(crate::storage::write_ahead_log::WriteAheadLog::wal_filename, crate::verif_support::wal_name_stub)]
+#[kani::stub(std::vec::from_elem, crate::verif_support::from_elem_stub8)]
+#[kani::unwind(4)]
+fn c01_open_replays_log() {
+    c01_replay_two(1, 2, 1);
+}
+
+//@ id=C01 tier=quick timeout=900 bounds="data 0..=4 symbolic bytes; a FileStorage whose log holds TWO undo records (2 bytes, 1 byte; symbolic positions <= 5) is dropped" desc="dropping the storage with an unfinished transaction replays the log (newest-first) and clears it" kernel="Drop for FileStorage,FileStorage::apply_wal,FileStorage::flush"
+#[kani::proof]
+#[kani::stub(std::fmt::format, crate::verif_support::fmt_stub)]
+#[kani::stub(crate::DbError::new, crate::verif_support::dberror_new_stub)]
+#[kani::stub(<crate::DbError as std::convert::From<std::io::Error>>::from, crate::verif_support::ioerr_stub)]
+#[kani::stub(crate::storage::write_ahead_log::WriteAheadLog::wal_filename, crate::verif_support::wal_name_stub)]
+#[kani::stub(std::vec::from_elem, crate::verif_support::from_elem_stub8)]
+#[kani::unwind(4)]
+fn c01_drop_rolls_back() {
+    c01_replay_two(2, 1, 2);
+}
+
+//@ id=C01 tier=quick timeout=900 bounds="committed content 0..=4 symbolic bytes; one write (0..=3 bytes) or resize, then flush" desc="flush (outermost commit) empties the log and leaves the data file as written" kernel="FileStorage::flush,WriteAheadLog::clear"
+#[kani::proof]
+#[kani::stub(std::fmt::format, crate::verif_support::fmt_stub)]
+#[kani::stub(crate::DbError::new, crate::verif_support::dberror_new_stub)]
+#[kani::stub(<crate::DbError as std::convert::From<std::io::Error>>::from, crate::verif_support::ioerr_stub)]
+#[kani::stub(crate::storage::write_ahead_log::WriteAheadLog::wal_filename, crate::verif_support::wal_name_stub)]
+#[kani::stub(std::vec::from_elem, crate::verif_support::from_elem_stub8)]
+#[kani::unwind(2)]
+fn c01_flush_commits() {
+    let (_d0, _n0) = c01_init();
+    let mut st = ok(FileStorage::new("db"));
+    let kind: bool = kani::any();
+    if kind {
+        let pos: u64 = kani::any();
+        let n: usize = kani::any();
+        let bytes: [u8; 3] = kani::any();
+        kani::assume(n <= 3);
+        let len = st.len();
+        kani::assume(pos <= len);
+        kani::assume(pos == len || pos + n as u64 <= len);
+        ok(st.write(pos, &bytes[..n]));
+    } else {
+        let new_len: u64 = kani::any();
+        kani::assume(new_len <= st.len() + 3);
+        ok(st.resize(new_len));
+    }
+    let (c, cn) = c01_current_data();
+    ok(st.flush());
+    assert!(verif_fs::log_len() == 0, "C01: log not empty after the outermost commit");
+    assert!(c01_data_is(&c, cn), "C01: flush changed the data file");
+    assert!(st.len() == cn as u64, "C01: FileStorage::len() differs from the data file length");
+    std::mem::forget(st);
+    kani::cover!(kind, "write then flush");
+    kani::cover!(!kind, "resize then flush");
+    kani::cover!(true, "end of harness reachable");
+}
+
+//@ id=C01 tier=quick timeout=600 bounds="data 0..=4 symbolic bytes, empty log" desc="opening a storage whose log is empty (the state after a commit) leaves the data file untouched and reports its length" kernel="FileStorage::new,WriteAheadLog::new,FileStorage::apply_wal"
+#[kani::proof]
+#[kani::stub(std::fmt::format, crate::verif_support::fmt_stub)]
+#[kani::stub(crate::DbError::new, crate::verif_support::dberror_new_stub)]
+#[kani::stub(<crate::DbError as std::convert::From<std::io::Error>>::from, crate::verif_support::ioerr_stub)]
+#[kani::stub(crate::storage::write_ahead_log::WriteAheadLog::wal_filename, crate::verif_support::wal_name_stub)]
+#[kani::stub(std::vec::from_elem, crate::verif_support::from_elem_stub8)]
+#[kani::unwind(2)]
+fn c01_open_with_empty_log_keeps_content() {
+    let (d0, n0) = c01_init();
+    let st = ok(FileStorage::new("db"));
+    assert!(c01_data_is(&d0, n0), "C01: opening with an empty log changed the data file");
+    assert!(st.len() == n0 as u64, "C01: FileStorage::len() after open differs from the file length");
+    assert!(verif_fs::log_len() == 0, "C01: log not empty after open");
+    std::mem::forget(st);
+    kani::cover!(n0 == 4, "four bytes");
+    kani::cover!(true, "end of harness reachable");
+}
